@@ -1,8 +1,11 @@
 #!/bin/bash
-# tools/seed_pipeline.sh <PID> [checks...]: confirm /tmp/mut/<PID>-out/{m1,m2} in the scratch worktree, then run the checks.
+# tools/seed_pipeline.sh [--confirm-only] <PID> [checks...]: confirm /tmp/mut/<PID>-out/{m1,m2} in the scratch worktree,
+# then (unless --confirm-only) run the checks against a patched copy.
+CO=0; [ "$1" = "--confirm-only" ] && { CO=1; shift; }
 P=$1; shift
 for m in m1 m2; do
   [ -f /tmp/mut/$P-out/$m/patch.diff ] || continue
-  /verif/tools/confirm_seed.sh $P $m
-  if [ -f /verif/checks/$P.py ] || [ $# -gt 0 ]; then python3 /verif/tools/run_seed.py $P-$m "$@"; fi
+  [ -f /verif/seeded/$P-$m/confirm.json ] || /verif/tools/confirm_seed.sh $P $m
+  [ $CO = 1 ] && continue
+  python3 /verif/tools/run_seed.py $P-$m "$@"
 done
